@@ -142,6 +142,14 @@ impl Analysis {
                     self.pattern_exprs(a);
                 }
             }
+            Lv::Cmp(args, ops) => {
+                for o in ops {
+                    self.read(o);
+                }
+                for a in args {
+                    self.pattern_exprs(a);
+                }
+            }
         }
     }
 
@@ -169,7 +177,7 @@ impl Analysis {
                 self.pattern_names(a, declaring);
                 self.pattern_names(b, declaring);
             }
-            Lv::Destructure(_, args) => {
+            Lv::Destructure(_, args) | Lv::Cmp(args, _) => {
                 for a in args {
                     self.pattern_names(a, declaring);
                 }
@@ -300,7 +308,27 @@ impl Analysis {
             Ex::Continue(_) => {}
             Ex::Try(body, pat, handler) => {
                 // the body shares the current scope; what it declares before a throw is conditional
-                self.cond(body);
+                // -- except leading declarations of a plain number literal, which cannot fail (or
+                // fail only because the name is declared already)
+                let infallible = |x: &Ex| match x {
+                    Ex::Assign(false, l, rhs) => {
+                        matches!(&**l, Lv::Annot(inner, None) if matches!(&**inner, Lv::Ident(_, ixs) if ixs.is_empty()))
+                            && matches!(&**rhs, Ex::Num(_))
+                    }
+                    _ => false,
+                };
+                match &**body {
+                    Ex::Seq(xs, trailing) if xs.first().map_or(false, infallible) => {
+                        let n = xs.iter().take_while(|x| infallible(x)).count();
+                        for x in &xs[..n] {
+                            self.visit(x);
+                        }
+                        if n < xs.len() {
+                            self.cond(&Ex::Seq(xs[n..].to_vec(), *trailing));
+                        }
+                    }
+                    _ => self.cond(body),
+                }
                 self.push();
                 self.pattern_exprs(pat);
                 self.pattern_names(pat, true);
@@ -390,7 +418,7 @@ fn lv_targets(l: &Lv, out: &mut BTreeSet<String>) {
             lv_targets(a, out);
             lv_targets(b, out);
         }
-        Lv::Destructure(_, args) => {
+        Lv::Destructure(_, args) | Lv::Cmp(args, _) => {
             for a in args {
                 lv_targets(a, out);
             }
